@@ -430,6 +430,23 @@ def one_twin(run, sc, mk, call, edit, kw, payload, mir_all):
         unchanged(run, sc, "argument (second call)", snap2, arg, payload)
         no_alias(run, sc, a_idnt, {"argument": arg}, payload)
         oa, ob = outcome(a_idnt), outcome(b_idnt)
+        # ... and the same as for a curve that only ever saw the edited value
+        d3 = []
+        if sc.startswith("fit_model(params_initial)"):
+            # (the model is named first: naming it later would discard the
+            # initial parameters given with the same call)
+            c_idnt = curve()
+            c_idnt.apply_preprocessing(list(PIPE))
+            c_idnt.fit_properties["model_key"] = "hertz_para"
+            call(c_idnt, copy.deepcopy(snap2), **kw)
+            d3 = diff(oa, outcome(c_idnt))
+        if d3:
+            run.failing(SITE, sc + "|noticed",
+                        f"{sc}: after the edited object was passed again the "
+                        f"curve differs ({d3}) from a curve that was only "
+                        "ever given the edited value: the change was not "
+                        "noticed / results were not recomputed",
+                        payload=payload, theorem="C10_by_value")
         d = diff(oa, ob)
         if d:
             run.failing(SITE, sc + "|by-value",
